@@ -125,7 +125,18 @@ def observe_case(case):
         if case['kind'] == 'build':
             b = CsrMatrixBuilder(shape=(case['R'], case['C']))
             oks = []
-            for r, c, v in case['ops']:
+            # matrices frozen from the builder in the middle of the history (every prefix of a short history, a few
+            # of a long one): what they read must not change when the builder is assigned to afterwards
+            n = len(case['ops'])
+            at = set(range(n)) if n <= 6 else {n // 4, n // 2, (3 * n) // 4, n - 1}
+            snaps = []
+            for k, (r, c, v) in enumerate(case['ops']):
+                if k in at:
+                    try:
+                        sm = ImmutableCsrMatrix(b.row, b.col, b.data, b.shape, dtype=ty)
+                        snaps.append((k, sm, reads(sm, case['queries'], dt)))
+                    except Exception:
+                        pass
                 try:
                     b[r, c] = dec(v, dt)
                     oks.append(True)
@@ -133,7 +144,12 @@ def observe_case(case):
                     oks.append(False)
             m = ImmutableCsrMatrix(b.row, b.col, b.data, b.shape, dtype=ty)
             assert tuple(m.shape) == (case['R'], case['C'])
-            res.append({'oks': oks, 'reads': reads(m, case['queries'], dt)})
+            changed = []
+            for k, sm, before in snaps:
+                after = attempt(lambda: reads(sm, case['queries'], dt))
+                if after != {'ok': before}:
+                    changed.append(k)
+            res.append({'oks': oks, 'reads': reads(m, case['queries'], dt), 'snapshots': len(snaps), 'snapshots_changed': changed})
         else:
             m = ImmutableCsrMatrix(case['row'], case['col'], [dec(v, dt) for v in case['data']],
                                    (case['R'], case['C']), dtype=ty)
